@@ -102,3 +102,11 @@
 (assert (forall ((o (Array Int Str)) (D (Array Str Bool)) (n Int) (k Str)) (!
   (=> (and (isEnum o D n) (select D k)) (and (<= 0 (enumPos o D n k)) (< (enumPos o D n k) n) (= (select o (enumPos o D n k)) k)))
   :pattern ((isEnum o D n) (select D k)))))
+
+; ---- C06: Set(k1, v1, k2, v2, ...): lastIdx(A, i, k) = position of the last pair among the first i
+; arguments whose key is k (or -1): the reference semantics of "last pair wins", by one-step unfolding
+(declare-fun lastIdx ((Array Int Val) Int Str) Int)
+(assert (forall ((A (Array Int Val)) (i Int) (k Str)) (! (=> (< i 2) (= (lastIdx A i k) (- 1))) :pattern ((lastIdx A i k)))))
+(assert (forall ((A (Array Int Val)) (i Int) (k Str)) (!
+  (=> (>= i 2) (= (lastIdx A i k) (ite (= (vstr (select A (- i 2))) k) (- i 2) (lastIdx A (- i 2) k))))
+  :pattern ((lastIdx A i k)))))
